@@ -68,7 +68,10 @@ class Driver:
                                   text=True, env=env, bufsize=1 << 20)
 
     def walk(self, fn0, delta, count):
-        self.p.stdin.write("W %d %d %d\n" % (fn0, delta, count))
+        if isinstance(delta, tuple):          # one delta per call
+            self.p.stdin.write("S %d %s\n" % (fn0, " ".join(map(str, delta))))
+        else:
+            self.p.stdin.write("W %d %d %d\n" % (fn0, delta, count))
         self.p.stdin.flush()
         out = []
         rd = self.p.stdout.readline
@@ -114,10 +117,31 @@ def plan_quick(rng):
         w.append(((HYPER - 3 * d - rng.randrange(d)) % HYPER, d, 8))
         w.append((HYPER - 1, d, 2))
         w.append((0, d, 2))
+    w += plan_positions(rng)
     # long strides: one superframe (T1 through 2047 -> 0), one less, one frame back
     w.append((rng.randrange(HYPER), 1326, 2100))
     w.append((rng.randrange(HYPER), 1325, 2100))
     w.append((1000, 2715647, 2000))
+    return w
+
+
+def plan_positions(rng, mixed=40):
+    """Every delta 2..60 from every position of the superframe (FN mod 1326 fixes T2 and T3,
+    the carry logic depends on nothing else below T1), and walks of mixed deltas."""
+    import math
+    w = []
+    for d in ALL_DELTAS:
+        if not 2 <= d <= 60:
+            continue
+        g = math.gcd(d, SUPER)
+        base = rng.randrange(HYPER)
+        for j in range(g):
+            w.append(((base + j) % HYPER, d, SUPER // g))
+    small = [x for x in ALL_DELTAS if x <= 60]
+    for _ in range(mixed):
+        seq = tuple(rng.choice([1, 1, rng.choice(small), rng.choice(ALL_DELTAS), rng.randint(1, 6)]) for _ in range(200))
+        w.append((rng.choice([rng.randrange(HYPER), HYPER - rng.randint(1, 3000), rng.randrange(2048) * SUPER - 20]) % HYPER,
+                  seq, len(seq)))
     return w
 
 
@@ -299,7 +323,7 @@ def run(ctx):
     died = None
     try:
         for (fn0, d, cnt) in plan:
-            tid = "w%d_%d_%d" % (fn0, d, cnt)
+            tid = "w%d_%s_%d" % (fn0, d if not isinstance(d, tuple) else "mix%x" % (hash(d) & 0xffffff), cnt)
             try:
                 lines = drv.walk(fn0, d, cnt)
             except DriverDied as e:
@@ -324,7 +348,7 @@ def run(ctx):
             ntr[0] += 1
             if d == 1:
                 covered_after[0] += cnt
-            seen_class.add(d)
+            seen_class.update(d if isinstance(d, tuple) else (d,))
             if len(ctx.samples) < 2:
                 ctx.sample(dict(walk=tid, events=[json.loads(e) for e in evs[:3]]))
             cur.append((tid, evs))
